@@ -63,10 +63,19 @@ func SpecUeOf(supi string) *ChfUe { return nil }
 //@   ensures result1 ==> strings.HasPrefix(supi, "imsi-")
 //@   ensures !result1 ==> result0 == nil
 
+func verif_exists[T any](f func(T) bool) bool { return false }
+
+// SpecHasRatingGroup: the rating group is in the subscriber's list
+func SpecHasRatingGroup(ue *ChfUe, rg int32) bool {
+	return verif_exists(func(i int) bool { return 0 <= i && i < len(ue.RatingGroups) && ue.RatingGroups[i] == rg })
+}
+
 // FindRatingGroup: a pure search.
-//@ func (*ChfUe).FindRatingGroup [C11]
+//@ func (*ChfUe).FindRatingGroup [C11 C01 C06]
 //@   requires ue != nil
-//@   loop 0: invariant 0 <= ITER
+//@   ensures result == SpecHasRatingGroup(ue, ratingGroup)
+//@   loop 0: invariant 0 <= ITER && ITER <= len(ue.RatingGroups)
+//@   loop 0: invariant forall j int :: 0 <= j && j < ITER ==> ue.RatingGroups[j] != ratingGroup
 
 // The context is initialised from a configuration that passed validation: every section read
 // unconditionally is present (C20).
